@@ -102,6 +102,7 @@ fn c_dt(v: &Value) -> Result<Box<fpdt::PlainDateTime>, CErr> {
 const DK: [&str; 10] = ["y", "mo", "w", "d", "h", "mi", "s", "ms", "us", "ns"];
 fn c_dur(v: &Value) -> Result<Box<fd::Duration>, CErr> {
     let f = |k: &str| v.get(k).map(f64_exact).unwrap_or(0.0);
+    if super::dur_is_mixed(v) { return fd::Duration::from_day_and_time(f("d"), &*fd::TimeDuration::new(f("h"), f("mi"), f("s"), f("ms"), f("us"), f("ns"))?); }
     fd::Duration::create(f(DK[0]), f(DK[1]), f(DK[2]), f(DK[3]), f(DK[4]), f(DK[5]), f(DK[6]), f(DK[7]), f(DK[8]), f(DK[9]))
 }
 fn farr(v: &Value, n: usize) -> Vec<f64> { f_array(&json!({"f": v}), "f", n) }
